@@ -26,6 +26,7 @@ import core
 from props import c06 as base
 
 LEAN_MODULE = "Optyx.Props.C20"
+EXTRA_MODULES = ["Optyx.Props.PinsC20"]   # transcription anchors (harness/source_pins.py)
 THEOREMS = [
     "Optyx.Props.C20.hook_restored",
     "Optyx.Props.C20.reclimit_unchanged",
@@ -36,6 +37,7 @@ THEOREMS = [
     "Optyx.Props.C20.next_solve_unaffected",
     "Optyx.Props.Dispatch.solve_autoSelect_eq_generated",
     "Optyx.Props.Dispatch.solve_route_eq_generated",
+    "Optyx.Props.PinsC20.anchors",
 ]
 ASSUMPTIONS = [
     "one injected fault per solve (after it fires the call ends: FAILED solution or propagation)",
